@@ -43,3 +43,9 @@ Fixpoint nodupK (l : list (N * N)) : bool :=
 Definition rgoodb (cbm : N) (st : store) : bool :=
   nodupN (map n_int (s_nodes st)) && forallb (fun n => n_int n <? s_next st) (s_nodes st) &&
   nodupK (map key (s_nodes st)) && forallb wf_cnode (of_gid cbm st).
+
+(* the decidable preconditions of merging source g in store st (full refinement): its abstraction is a well-formed
+   model and it has no self-loop *)
+Definition noselfb (g : N) (st : store) : bool :=
+  forallb (fun n => negb (has_edge (n_int n) (n_int n) (s_edges st))) (of_gid g st).
+Definition mergeableb (g : N) (st : store) : bool := wf_admb (abs_adm g st) && noselfb g st.
